@@ -6,7 +6,7 @@ use crate::flowgen;
 use hv_common::{read_lines, Args, Recorder, Rng};
 use std::collections::BTreeMap;
 
-pub const OPS: &[&str] = &["cnt", "fmax", "vcount", "kmax", "ksum", "kfirst_map", "kfirst_entries"];
+pub const OPS: &[&str] = &["cnt", "fmax", "vcount", "kmax", "ksum", "kfirst_map", "kfirst_entries", "kfirst_filter", "kfirst_fmap", "vcount_map"];
 
 type Snap = BTreeMap<i32, i64>;
 
@@ -47,11 +47,11 @@ pub fn exec(rec: &mut Recorder, op: &str, field: &str, line: &str) -> Option<Str
             }
             txt
         }
-        "vcount" | "kmax" | "ksum" | "kfirst_map" | "kfirst_entries" => {
+        "vcount" | "kmax" | "ksum" | "kfirst_map" | "kfirst_entries" | "kfirst_filter" | "kfirst_fmap" | "vcount_map" => {
             let t: Vec<Vec<(i32, i32)>> = ticks.iter().map(|s| parse_pairs(s)).collect::<Option<_>>()?;
             let (snaps, txt): (Vec<Snap>, String) = match op {
-                "vcount" => {
-                    let r = flowgen::run_c33_vcount(&t);
+                "vcount" | "vcount_map" => {
+                    let r = if op == "vcount" { flowgen::run_c33_vcount(&t) } else { flowgen::run_c33_vcount_map(&t) };
                     if r.is_err() { return Some("panic".into()) }
                     let r = r.unwrap();
                     (r.iter().map(|o| o.iter().map(|(k, v)| (*k, *v as i64)).collect()).collect(), r.iter().map(|o| show_sorted_pairs(o)).collect::<Vec<_>>().join("|"))
@@ -62,8 +62,8 @@ pub fn exec(rec: &mut Recorder, op: &str, field: &str, line: &str) -> Option<Str
                     let r = r.unwrap();
                     (r.iter().map(|o| o.iter().map(|(k, v)| (*k, *v as i64)).collect()).collect(), r.iter().map(|o| show_sorted_pairs(o)).collect::<Vec<_>>().join("|"))
                 }
-                "kfirst_map" => {
-                    let r = flowgen::run_c33_kfirst_map(&t);
+                "kfirst_map" | "kfirst_filter" | "kfirst_fmap" => {
+                    let r = match op { "kfirst_map" => flowgen::run_c33_kfirst_map(&t), "kfirst_filter" => flowgen::run_c33_kfirst_filter(&t), _ => flowgen::run_c33_kfirst_fmap(&t) };
                     if r.is_err() { return Some("panic".into()) }
                     let r = r.unwrap();
                     (r.iter().map(|o| o.first().map(|m| m.iter().map(|(k, v)| (*k, *v as i64)).collect()).unwrap_or_default()).collect(),
@@ -87,7 +87,7 @@ pub fn exec(rec: &mut Recorder, op: &str, field: &str, line: &str) -> Option<Str
                     (snaps, r.iter().map(|o| show_sorted_pairs(o)).collect::<Vec<_>>().join("|"))
                 }
             };
-            let (mono, fixed) = match op { "vcount" | "kmax" => (true, false), "ksum" => (false, false), _ => (true, true) };
+            let (mono, fixed) = match op { "vcount" | "kmax" => (true, false), "ksum" | "vcount_map" => (false, false), _ => (true, true) };
             keyed_checks(rec, op, &snaps, mono, fixed, line);
             if snaps.iter().any(|s| !s.is_empty()) && snaps.len() >= 2 { rec.count("keyed-history-with-entries"); }
             txt
